@@ -1,11 +1,722 @@
-//! C20 -- not built yet (stub so the crate layout is stable).
-use crate::engine::report::{Ctx, Report};
-use serde_json::Value;
+//! C20 -- colours reduced for 256-colour and grey terminals are the closest available ones.
+//!
+//! Complete sweep of all 2^24 opaque colours through the real `TTYEncoder` (public API only):
+//! `Face{fg}` (quick) and also `Face{bg}` and `FaceModify{underline_color}` (thorough), under
+//! `EightBit`, `Gray` and `TrueColor`. The emitted bytes are read by a small SGR parameter
+//! parser written here. Oracles:
+//!
+//! * EightBit: the selected index i is in 16..=255 and d(c, entry i) <= min_j d(c, entry j) + 1e-5
+//!   over all 240 non-system entries of the xterm palette (cube levels 0,95,135,175,215,255;
+//!   greys 8+10k), d = the library's own `LinColor::distance`, entries converted from their sRGB
+//!   definition by the library's own `LinColor::from(RGBA)`. Brute force, no shortcut.
+//! * Gray: the emitted ANSI grey (30 < 90 < 37 < 97, +10 for background) is the level of
+//!   {0, .33, .66, 1} nearest to luma (ties: either side), and levels are monotone in luma over
+//!   the complete sweep.
+//! * TrueColor: exactly `2;r;g;b`.
+use crate::engine::report::{Ctx, Report, Samples, Tier, Violations};
+use crate::engine::catch;
+use rayon::prelude::*;
+use serde_json::{json, Value};
+use std::collections::BTreeMap;
+use surf_n_term::encoder::{ColorDepth, Encoder, TTYEncoder};
+use surf_n_term::{Face, FaceModify, LinColor, TerminalCaps, TerminalCommand, RGBA};
 
-pub fn run(_ctx: &Ctx) -> Result<Report, String> {
-    Err("C20: check not built yet".into())
+/// tolerance of the optimality oracle (absorbs the six-digit hand-typed linear tables)
+const TOL: f64 = 1e-5;
+/// tolerance for luma ties (library computes luma in f32, the oracle in f64)
+const LUMA_TOL: f64 = 1e-6;
+
+// ---------------------------------------------------------------------------------------------
+// specification: xterm 256-colour palette (non-system part) and ANSI greys
+
+const CUBE_LEVELS: [u8; 6] = [0, 95, 135, 175, 215, 255];
+
+/// sRGB definition of xterm palette entry `index` (16..=255).
+pub fn xterm_entry(index: usize) -> [u8; 3] {
+    assert!((16..=255).contains(&index));
+    if index < 232 {
+        let i = index - 16;
+        [CUBE_LEVELS[i / 36], CUBE_LEVELS[(i / 6) % 6], CUBE_LEVELS[i % 6]]
+    } else {
+        let v = (8 + 10 * (index - 232)) as u8;
+        [v, v, v]
+    }
 }
 
-pub fn replay(_w: &Value) -> Result<(bool, String), String> {
-    Err("C20: check not built yet".into())
+/// Grey levels available on a grey-only terminal and the SGR foreground codes that show them,
+/// darkest first: black, bright black, white, bright white.
+const GRAY_LEVELS: [f64; 4] = [0.0, 0.33, 0.66, 1.0];
+const GRAY_FG_CODES: [u32; 4] = [30, 90, 37, 97];
+
+/// Rec.709 weights applied to the sRGB components (the library's notion of luma).
+fn luma(c: [u8; 3]) -> f64 {
+    0.2126 * (c[0] as f64 / 255.0) + 0.7152 * (c[1] as f64 / 255.0) + 0.0722 * (c[2] as f64 / 255.0)
+}
+
+// ---------------------------------------------------------------------------------------------
+// tiny SGR reader
+
+#[derive(Debug, Clone, Copy, PartialEq, Eq)]
+pub enum Col {
+    /// 38;5;N
+    Idx(u32),
+    /// 38;2;r;g;b
+    Rgb(u32, u32, u32),
+    /// 30..37 / 90..97 (stored as the foreground code, background has 10 subtracted)
+    Basic(u32),
+}
+
+#[derive(Debug, Clone, Copy, PartialEq, Eq, Default)]
+pub struct Sgr {
+    pub fg: Option<Col>,
+    pub bg: Option<Col>,
+    pub ul: Option<Col>,
+}
+
+/// Parse zero or more `ESC [ params m` sequences and return the colours they set.
+pub fn parse_sgr(bytes: &[u8]) -> Result<Sgr, String> {
+    let mut sgr = Sgr::default();
+    let mut rest = bytes;
+    while !rest.is_empty() {
+        if rest.len() < 3 || rest[0] != 0x1b || rest[1] != b'[' {
+            return Err("not a CSI sequence".into());
+        }
+        let end = rest.iter().position(|b| *b == b'm').ok_or("no final byte m")?;
+        let body = &rest[2..end];
+        if !body.iter().all(|b| b.is_ascii_digit() || *b == b';' || *b == b':') {
+            return Err("unexpected byte in SGR parameters".into());
+        }
+        let body = std::str::from_utf8(body).map_err(|e| e.to_string())?;
+        // flatten `38:5:N` style sub-parameters of colour parameters into the same stream
+        let mut params: Vec<Option<u32>> = Vec::new();
+        for tok in body.split(';') {
+            let head = tok.split(':').next().unwrap_or("");
+            if tok.contains(':') && !matches!(head, "38" | "48" | "58") {
+                // e.g. 4:3 underline styles -- one parameter, irrelevant here
+                params.push(None);
+                continue;
+            }
+            for sub in tok.split(':') {
+                if sub.is_empty() {
+                    params.push(Some(0));
+                } else {
+                    params.push(Some(sub.parse::<u32>().map_err(|e| format!("parameter {sub:?}: {e}"))?));
+                }
+            }
+        }
+        let mut i = 0;
+        while i < params.len() {
+            let p = params[i];
+            i += 1;
+            let Some(p) = p else { continue };
+            match p {
+                0 => sgr = Sgr::default(),
+                30..=37 | 90..=97 => sgr.fg = Some(Col::Basic(p)),
+                40..=47 | 100..=107 => sgr.bg = Some(Col::Basic(p - 10)),
+                39 => sgr.fg = None,
+                49 => sgr.bg = None,
+                59 => sgr.ul = None,
+                38 | 48 | 58 => {
+                    let get = |k: usize| -> Result<u32, String> {
+                        params.get(k).copied().flatten().ok_or_else(|| "truncated colour parameter".to_string())
+                    };
+                    let col = match get(i)? {
+                        5 => {
+                            let c = Col::Idx(get(i + 1)?);
+                            i += 2;
+                            c
+                        }
+                        2 => {
+                            let c = Col::Rgb(get(i + 1)?, get(i + 2)?, get(i + 3)?);
+                            i += 4;
+                            c
+                        }
+                        other => return Err(format!("unknown colour space {other}")),
+                    };
+                    match p {
+                        38 => sgr.fg = Some(col),
+                        48 => sgr.bg = Some(col),
+                        _ => sgr.ul = Some(col),
+                    }
+                }
+                _ => {}
+            }
+        }
+        rest = &rest[end + 1..];
+    }
+    Ok(sgr)
+}
+
+// ---------------------------------------------------------------------------------------------
+// cases
+
+#[derive(Debug, Clone, Copy, PartialEq, Eq, PartialOrd, Ord)]
+pub enum Role {
+    /// `Face{fg}`
+    Fg,
+    /// `Face{bg}`
+    Bg,
+    /// `FaceModify{underline_color}`
+    Ul,
+    /// `FaceModify{fg}` (a separate call site in the encoder)
+    ModFg,
+    /// `FaceModify{bg}`
+    ModBg,
+}
+
+const ALL_ROLES: [Role; 5] = [Role::Fg, Role::Bg, Role::Ul, Role::ModFg, Role::ModBg];
+
+impl Role {
+    fn name(self) -> &'static str {
+        match self {
+            Role::Fg => "fg",
+            Role::Bg => "bg",
+            Role::Ul => "underline",
+            Role::ModFg => "modify-fg",
+            Role::ModBg => "modify-bg",
+        }
+    }
+    fn from_name(s: &str) -> Option<Role> {
+        ALL_ROLES.into_iter().find(|r| r.name() == s)
+    }
+}
+
+fn depth_name(d: ColorDepth) -> &'static str {
+    match d {
+        ColorDepth::EightBit => "EightBit",
+        ColorDepth::Gray => "Gray",
+        ColorDepth::TrueColor => "TrueColor",
+    }
+}
+
+fn depth_from_name(s: &str) -> Option<ColorDepth> {
+    [ColorDepth::EightBit, ColorDepth::Gray, ColorDepth::TrueColor]
+        .into_iter()
+        .find(|d| depth_name(*d) == s)
+}
+
+fn hex_color(c: [u8; 3]) -> String {
+    format!("#{:02x}{:02x}{:02x}", c[0], c[1], c[2])
+}
+
+fn parse_hex(s: &str) -> Option<[u8; 3]> {
+    let s = s.strip_prefix('#')?;
+    if s.len() != 6 {
+        return None;
+    }
+    let v = u32::from_str_radix(s, 16).ok()?;
+    Some([(v >> 16) as u8, (v >> 8) as u8, v as u8])
+}
+
+struct Palette {
+    lin: Vec<LinColor>, // index 0 == palette entry 16
+}
+
+impl Palette {
+    fn new() -> Self {
+        let lin = (16..=255usize)
+            .map(|i| {
+                let [r, g, b] = xterm_entry(i);
+                LinColor::from(RGBA::new(r, g, b, 255))
+            })
+            .collect();
+        Self { lin }
+    }
+
+    /// brute force: (best entry index, its distance) -- first minimum in index order
+    fn best(&self, c: LinColor) -> (usize, f32) {
+        let mut best = (16usize, f32::INFINITY);
+        for (k, e) in self.lin.iter().enumerate() {
+            let d = c.distance(*e);
+            if d < best.1 {
+                best = (16 + k, d);
+            }
+        }
+        best
+    }
+}
+
+fn new_encoder(depth: ColorDepth) -> TTYEncoder {
+    TTYEncoder::new(TerminalCaps { depth, ..TerminalCaps::default() })
+}
+
+/// Drive the real encoder for one colour in one role; the emitted bytes land in `out`.
+fn emit(enc: &mut TTYEncoder, out: &mut Vec<u8>, role: Role, c: [u8; 3]) -> Result<(), String> {
+    out.clear();
+    let rgba = RGBA::new(c[0], c[1], c[2], 255);
+    let cmd = match role {
+        Role::Fg => TerminalCommand::Face(Face { fg: Some(rgba), ..Face::default() }),
+        Role::Bg => TerminalCommand::Face(Face { bg: Some(rgba), ..Face::default() }),
+        Role::Ul => TerminalCommand::FaceModify(FaceModify { underline_color: Some(rgba), ..FaceModify::default() }),
+        Role::ModFg => TerminalCommand::FaceModify(FaceModify { fg: Some(rgba), ..FaceModify::default() }),
+        Role::ModBg => TerminalCommand::FaceModify(FaceModify { bg: Some(rgba), ..FaceModify::default() }),
+    };
+    enc.encode(&mut *out, cmd).map_err(|e| format!("encode error: {e:?}"))
+}
+
+struct Fail {
+    kind: &'static str,
+    /// how far beyond the oracle (distance excess, or luma error); larger = worse
+    excess: f64,
+    /// only filled in when asked for (`verbose`): formatting millions of failures is slow
+    detail: String,
+    /// Gray: the level shown, when the emitted code is one of the four greys
+    level: Option<u32>,
+}
+
+macro_rules! detail {
+    ($verbose:expr, $($t:tt)*) => {
+        if $verbose { format!($($t)*) } else { String::new() }
+    };
+}
+
+/// Outcome of one evaluation that passed the oracle.
+struct Pass {
+    /// EightBit: selected index; Gray: level 0..4; TrueColor: 0
+    outcome: u32,
+    /// EightBit: distance excess over the brute-force optimum (<= TOL)
+    excess: f64,
+    nontrivial: bool,
+}
+
+fn slot(sgr: &Sgr, role: Role) -> Option<Col> {
+    match role {
+        Role::Fg | Role::ModFg => sgr.fg,
+        Role::Bg | Role::ModBg => sgr.bg,
+        Role::Ul => sgr.ul,
+    }
+}
+
+/// The oracle for one (role, depth, colour) given the bytes the encoder emitted.
+fn judge(pal: &Palette, role: Role, depth: ColorDepth, c: [u8; 3], bytes: &[u8], verbose: bool) -> Result<Pass, Fail> {
+    let sgr = parse_sgr(bytes).map_err(|e| Fail {
+        kind: "unparseable", level: None,
+        excess: 0.0,
+        detail: detail!(verbose, "emitted {:?}: {e}", crate::engine::util::esc(bytes)),
+    })?;
+    let got = slot(&sgr, role);
+    let shown = || crate::engine::util::esc(bytes);
+    match depth {
+        ColorDepth::TrueColor => {
+            let want = Col::Rgb(c[0] as u32, c[1] as u32, c[2] as u32);
+            if got == Some(want) {
+                Ok(Pass { outcome: 0, excess: 0.0, nontrivial: false })
+            } else {
+                Err(Fail {
+                    kind: "truecolor-changed", level: None,
+                    excess: 0.0,
+                    detail: detail!(verbose, "expected {} to be sent as 2;{};{};{} but emitted {} ({:?})", hex_color(c), c[0], c[1], c[2], shown(), got),
+                })
+            }
+        }
+        ColorDepth::EightBit => {
+            let idx = match got {
+                Some(Col::Idx(i)) => i,
+                other => {
+                    return Err(Fail {
+                        kind: "no-palette-index", level: None,
+                        excess: 0.0,
+                        detail: detail!(verbose, "expected a 5;N palette colour for {}, emitted {} ({:?})", hex_color(c), shown(), other),
+                    })
+                }
+            };
+            if !(16..=255).contains(&idx) {
+                return Err(Fail {
+                    kind: "index-out-of-range", level: None,
+                    excess: 0.0,
+                    detail: detail!(verbose, "index {idx} for {} is not one of the 240 non-system entries 16..=255 ({})", hex_color(c), shown()),
+                });
+            }
+            let lin = LinColor::from(RGBA::new(c[0], c[1], c[2], 255));
+            let (best, dmin) = pal.best(lin);
+            let dsel = lin.distance(pal.lin[idx as usize - 16]);
+            let excess = dsel as f64 - dmin as f64;
+            if excess > TOL {
+                let e = xterm_entry(idx as usize);
+                let b = xterm_entry(best);
+                return Err(Fail {
+                    kind: "not-nearest", level: None,
+                    excess,
+                    detail: detail!(verbose, 
+                        "{}: library chose entry {idx} {} at distance {dsel:.6}, but entry {best} {} is at distance {dmin:.6} (excess {excess:.6} > 1e-5)",
+                        hex_color(c),
+                        hex_color(e),
+                        hex_color(b)
+                    ),
+                });
+            }
+            Ok(Pass { outcome: idx, excess, nontrivial: dmin > 0.0 })
+        }
+        ColorDepth::Gray => {
+            let code = match got {
+                Some(Col::Basic(code)) => code,
+                other => {
+                    return Err(Fail {
+                        kind: "no-grey-code", level: None,
+                        excess: 0.0,
+                        detail: detail!(verbose, "expected one of the four ANSI greys for {}, emitted {} ({:?})", hex_color(c), shown(), other),
+                    })
+                }
+            };
+            let Some(level) = GRAY_FG_CODES.iter().position(|g| *g == code) else {
+                return Err(Fail {
+                    kind: "not-a-grey", level: None,
+                    excess: 0.0,
+                    detail: detail!(verbose, "SGR colour {code} for {} is not black/bright black/white/bright white ({})", hex_color(c), shown()),
+                });
+            };
+            let l = luma(c);
+            let dsel = (l - GRAY_LEVELS[level]).abs();
+            let (best, dmin) = GRAY_LEVELS
+                .iter()
+                .enumerate()
+                .map(|(i, g)| (i, (l - g).abs()))
+                .fold((0, f64::INFINITY), |a, b| if b.1 < a.1 { b } else { a });
+            if dsel > dmin + LUMA_TOL {
+                return Err(Fail {
+                    kind: "not-nearest-level",
+                    level: Some(level as u32),
+                    excess: dsel - dmin,
+                    detail: detail!(verbose, 
+                        "{} has luma {l:.6}: library chose level {} (SGR {code}), nearest is level {} (SGR {})",
+                        hex_color(c),
+                        GRAY_LEVELS[level],
+                        GRAY_LEVELS[best],
+                        GRAY_FG_CODES[best]
+                    ),
+                });
+            }
+            Ok(Pass { outcome: level as u32, excess: 0.0, nontrivial: dmin > 0.0 })
+        }
+    }
+}
+
+fn eval_once(pal: &Palette, enc: &mut TTYEncoder, out: &mut Vec<u8>, role: Role, depth: ColorDepth, c: [u8; 3], verbose: bool) -> Result<Pass, Fail> {
+    match catch(|| emit(enc, out, role, c)) {
+        Err(p) => Err(Fail { kind: "panic", level: None, excess: 0.0, detail: detail!(verbose, "panicked: {} ({}:{})", p.message, p.file, p.line) }),
+        Ok(Err(e)) => Err(Fail { kind: "encode-error", level: None, excess: 0.0, detail: e }),
+        Ok(Ok(())) => judge(pal, role, depth, c, out, verbose),
+    }
+}
+
+fn witness(role: Role, depth: ColorDepth, c: [u8; 3]) -> Value {
+    json!({"role": role.name(), "depth": depth_name(depth), "color": hex_color(c)})
+}
+
+/// per (role, depth) accumulator, merged deterministically
+#[derive(Clone, Default)]
+struct Acc {
+    evals: u64,
+    nontrivial: u64,
+    outcomes: Vec<u64>, // histogram indexed by outcome (256 slots)
+    max_ok_excess: f64,
+    /// brute-force distance evaluations actually performed
+    dist_evals: u64,
+    /// kind -> (count, worst excess, colour, detail); ties broken by smaller colour
+    fails: BTreeMap<&'static str, (u64, f64, [u8; 3], String)>,
+    /// Gray: per level (min luma, colour), (max luma, colour)
+    level_span: Vec<Option<((f64, [u8; 3]), (f64, [u8; 3]))>>,
+}
+
+impl Acc {
+    fn new() -> Self {
+        Acc { outcomes: vec![0; 256], level_span: vec![None; 4], ..Default::default() }
+    }
+    fn span(&mut self, level: u32, c: [u8; 3]) {
+        let l = luma(c);
+        let s = &mut self.level_span[level as usize & 3];
+        *s = match s.take() {
+            None => Some(((l, c), (l, c))),
+            Some((mn, mx)) => Some((if (l, c) < mn { (l, c) } else { mn }, if (l, c) > mx { (l, c) } else { mx })),
+        };
+    }
+    fn fail(&mut self, c: [u8; 3], f: Fail) {
+        if let Some(level) = f.level {
+            self.span(level, c);
+        }
+        let e = self.fails.entry(f.kind).or_insert((0, f64::NEG_INFINITY, c, String::new()));
+        e.0 += 1;
+        if f.excess > e.1 || (f.excess == e.1 && c < e.2) {
+            e.1 = f.excess;
+            e.2 = c;
+            e.3 = f.detail;
+        }
+    }
+    fn merge(mut self, o: Acc) -> Acc {
+        self.evals += o.evals;
+        self.nontrivial += o.nontrivial;
+        for (a, b) in self.outcomes.iter_mut().zip(o.outcomes) {
+            *a += b;
+        }
+        self.max_ok_excess = self.max_ok_excess.max(o.max_ok_excess);
+        self.dist_evals += o.dist_evals;
+        for (k, v) in o.fails {
+            match self.fails.get_mut(k) {
+                None => {
+                    self.fails.insert(k, v);
+                }
+                Some(e) => {
+                    e.0 += v.0;
+                    if v.1 > e.1 || (v.1 == e.1 && v.2 < e.2) {
+                        e.1 = v.1;
+                        e.2 = v.2;
+                        e.3 = v.3;
+                    }
+                }
+            }
+        }
+        for (a, b) in self.level_span.iter_mut().zip(o.level_span) {
+            *a = match (a.take(), b) {
+                (None, x) | (x, None) => x,
+                (Some((amin, amax)), Some((bmin, bmax))) => Some((
+                    if (bmin.0, bmin.1) < (amin.0, amin.1) { bmin } else { amin },
+                    if (bmax.0, bmax.1) > (amax.0, amax.1) { bmax } else { amax },
+                )),
+            };
+        }
+        self
+    }
+}
+
+/// channel values of a sweep: every value, or the lattice {0} u {3, 7, .., 255} (65 values)
+fn channel_values(full: bool) -> Vec<u32> {
+    (0u32..256).filter(|v| full || *v == 0 || v % 4 == 3).collect()
+}
+
+/// All colours whose three channels are in `values`, for one role and depth.
+fn sweep(pal: &Palette, samples: &Samples, role: Role, depth: ColorDepth, values: &[u32]) -> Acc {
+    values
+        .par_iter()
+        .map(|&r| {
+            let mut acc = Acc::new();
+            let mut enc = new_encoder(depth);
+            let mut out = Vec::with_capacity(32);
+            for &g in values {
+                for &b in values {
+                    let c = [r as u8, g as u8, b as u8];
+                    acc.evals += 1;
+                    match eval_once(pal, &mut enc, &mut out, role, depth, c, false) {
+                        Ok(p) => {
+                            if depth == ColorDepth::EightBit {
+                                acc.dist_evals += pal.lin.len() as u64 + 1;
+                            }
+                            acc.nontrivial += p.nontrivial as u64;
+                            acc.outcomes[(p.outcome & 255) as usize] += 1;
+                            if p.excess > acc.max_ok_excess {
+                                acc.max_ok_excess = p.excess;
+                            }
+                            if depth == ColorDepth::Gray {
+                                acc.span(p.outcome, c);
+                            }
+                            let index = ((role as u64) << 40) | ((depth as u64) << 32) | ((r as u64) << 16 | (g as u64) << 8 | b as u64);
+                            if samples.wants(index.wrapping_mul(0x2545_f491_4f6c_dd1d) >> 8) {
+                                let bytes = out.clone();
+                                samples.offer(index.wrapping_mul(0x2545_f491_4f6c_dd1d) >> 8, || {
+                                    json!({"role": role.name(), "depth": depth_name(depth), "color": hex_color(c),
+                                           "emitted": crate::engine::util::esc(&bytes), "outcome": p.outcome})
+                                });
+                            }
+                        }
+                        Err(f) => {
+                            // a panicking encoder may be left in an odd state: start afresh
+                            if f.kind == "panic" {
+                                enc = new_encoder(depth);
+                            }
+                            acc.fail(c, f)
+                        }
+                    }
+                }
+            }
+            acc
+        })
+        .reduce(Acc::new, Acc::merge)
+}
+
+/// Check monotonicity of grey level in luma from the per-level luma spans of a complete sweep.
+fn monotone_failures(acc: &Acc) -> Vec<(f64, [u8; 3], [u8; 3], String)> {
+    let mut out = vec![];
+    for i in 0..4 {
+        for j in i + 1..4 {
+            if let (Some((_, (max_i, ci))), Some(((min_j, cj), _))) = (&acc.level_span[i], &acc.level_span[j]) {
+                if *max_i > *min_j + LUMA_TOL {
+                    out.push((
+                        max_i - min_j,
+                        *ci,
+                        *cj,
+                        format!(
+                            "{} (luma {:.6}) is shown at level {} but the darker {} (luma {:.6}) at the higher level {}",
+                            hex_color(*ci), max_i, GRAY_LEVELS[i], hex_color(*cj), min_j, GRAY_LEVELS[j]
+                        ),
+                    ));
+                }
+            }
+        }
+    }
+    out
+}
+
+pub fn run(ctx: &Ctx) -> Result<Report, String> {
+    let pal = Palette::new();
+    // sanity of the specification tables (not of the library)
+    if xterm_entry(16) != [0, 0, 0] || xterm_entry(231) != [255, 255, 255] || xterm_entry(232) != [8, 8, 8] || xterm_entry(255) != [238, 238, 238] || xterm_entry(110) != [135, 175, 215] {
+        return Err("xterm palette table is wrong".into());
+    }
+    // measured: one full (role, EightBit+Gray+TrueColor) sweep costs about 50 core-seconds (3.5 s on 16
+    // idle cores), nearly all of it the 240-entry brute force. quick: the foreground role over all 2^24
+    // colours, the other two roles of the statement over the 65^3 lattice; thorough: all 2^24 colours
+    // at all five call sites.
+    let roles: Vec<Role> = ctx.tier.pick(vec![Role::Fg, Role::Bg, Role::Ul], ALL_ROLES.to_vec());
+    let full_values = channel_values(true);
+    let lattice_values = channel_values(false);
+    let depths = [ColorDepth::EightBit, ColorDepth::Gray, ColorDepth::TrueColor];
+    let viol = Violations::new();
+    let samples = Samples::new(ctx.seed);
+    let mut evals = 0u64;
+    let mut nontrivial = 0u64;
+    let mut dist_evals = 0u64;
+    let mut sub = serde_json::Map::new();
+    let mut capped = false;
+    let mut skipped = vec![];
+    // a few fixed cases for the evidence file (the hashed samples below are spread over everything)
+    for c in [[0x80u8, 0x80, 0x80], [0xff, 0x88, 0x00], [0x12, 0x34, 0x56], [0x5f, 0x5f, 0x5f]] {
+        let mut enc = new_encoder(ColorDepth::EightBit);
+        let mut out = Vec::new();
+        if let Ok(p) = eval_once(&pal, &mut enc, &mut out, Role::Fg, ColorDepth::EightBit, c, false) {
+            let e = xterm_entry(p.outcome as usize);
+            samples.force(json!({"role": "fg", "depth": "EightBit", "color": hex_color(c), "emitted": crate::engine::util::esc(&out),
+                                 "selected_entry": hex_color(e), "excess_over_brute_force": p.excess}));
+        }
+    }
+    for role in &roles {
+        for depth in depths {
+            if *role == Role::Ul && depth == ColorDepth::Gray {
+                // there is no SGR form for an underline colour out of the 16-colour set; the library
+                // emits nothing, and the statement has nothing to compare
+                skipped.push("underline x Gray (no SGR form exists; nothing to compare)");
+                continue;
+            }
+            if ctx.over_cap() {
+                capped = true;
+                continue;
+            }
+            let t0 = std::time::Instant::now();
+            let full = ctx.tier == Tier::Thorough || *role == Role::Fg;
+            let values = if full { &full_values } else { &lattice_values };
+            let acc = sweep(&pal, &samples, *role, depth, values);
+            evals += acc.evals;
+            nontrivial += acc.nontrivial;
+            dist_evals += acc.dist_evals;
+            for (kind, (count, excess, c, _)) in &acc.fails {
+                // details are not built during the sweep: re-evaluate the worst case verbosely
+                let detail = match eval_once(&pal, &mut new_encoder(depth), &mut Vec::new(), *role, depth, *c, true) {
+                    Err(f) => f.detail,
+                    Ok(_) => "(not reproduced on re-evaluation: nondeterministic encoder?)".to_string(),
+                };
+                viol.add(
+                    format!("{}:{}:{}", role.name(), depth_name(depth), kind),
+                    format!("{} of {} colours fail; worst: {} [worst excess {:.6}]", count, acc.evals, detail, excess),
+                    witness(*role, depth, *c),
+                );
+            }
+            if depth == ColorDepth::Gray {
+                for (gap, ci, cj, detail) in monotone_failures(&acc) {
+                    let mut w = witness(*role, depth, ci);
+                    w["color2"] = json!(hex_color(cj));
+                    viol.add(
+                        format!("{}:{}:not-monotone", role.name(), depth_name(depth)),
+                        format!("grey level is not monotone in luma: {detail} [gap {gap:.6}]"),
+                        w,
+                    );
+                }
+            }
+            let distinct = acc.outcomes.iter().filter(|n| **n > 0).count();
+            sub.insert(
+                format!("{}:{}", role.name(), depth_name(depth)),
+                json!({
+                    "colours": acc.evals,
+                    "complete_2_pow_24": full,
+                    "nontrivial": acc.nontrivial,
+                    "distinct_outcomes": distinct,
+                    "failing": acc.fails.values().map(|v| v.0).sum::<u64>(),
+                    "max_excess_within_tolerance": acc.max_ok_excess,
+                    "wall_s": (t0.elapsed().as_secs_f64() * 100.0).round() / 100.0,
+                }),
+            );
+        }
+    }
+    let mut r = Report::new("exploration");
+    r.set("evaluations", evals)
+        .set("distinct_nontrivial", nontrivial)
+        .set(
+            "rule",
+            "cases = (role, colour depth, 24-bit opaque colour), all distinct by construction; for each (role, depth) \
+             listed under sub_spaces either every one of the 2^24 colours (complete_2_pow_24) or every colour of the \
+             lattice with channels in {0,3,7,..,255} (65^3); non-trivial = the colour is not itself an available \
+             palette entry / grey level, so a real reduction happens (TrueColor cases are all trivial)",
+        )
+        .set("samples", samples.into_vec())
+        .set("exhaustive", !capped)
+        .set("capped", capped)
+        .set("sub_spaces", Value::Object(sub))
+        .set("roles", roles.iter().map(|r| r.name()).collect::<Vec<_>>())
+        .set("not_applicable", skipped)
+        .set("palette_entries", pal.lin.len())
+        .set("brute_force_distance_evaluations", dist_evals)
+        .set("tolerance", TOL)
+        .set("raw_violations", viol.raw_count());
+    r.assume("the xterm 256-colour palette: cube levels 0,95,135,175,215,255 at 16+36r+6g+b, greys 8+10k at 232+k");
+    r.assume("the metric is the library's own LinColor::distance on LinColor::from(RGBA) (rasterize crate), as the statement says; these two functions are trusted, not checked");
+    r.assume("grey-only terminals show SGR 30 < 90 < 37 < 97 (background +10) as the four levels 0, .33, .66, 1; luma = Rec.709 weights on sRGB components");
+    r.assume("ties (two entries within 1e-5 in distance, or two levels within 1e-6 in luma) may go either way");
+    if ctx.tier == Tier::Quick {
+        r.set("tier_note", "quick: Face{fg} over all 2^24 colours; Face{bg} and FaceModify{underline_color} over the 65^3 lattice. thorough: all 2^24 colours for those three and for the FaceModify{fg}, FaceModify{bg} call sites");
+    }
+    r.violations = viol.into_vec();
+    Ok(r)
+}
+
+pub fn replay(w: &Value) -> Result<(bool, String), String> {
+    let role = w["role"].as_str().and_then(Role::from_name).ok_or("bad role")?;
+    let depth = w["depth"].as_str().and_then(depth_from_name).ok_or("bad depth")?;
+    let c = w["color"].as_str().and_then(parse_hex).ok_or("bad color")?;
+    let pal = Palette::new();
+    let mut enc = new_encoder(depth);
+    let mut out = Vec::new();
+    let first = eval_once(&pal, &mut enc, &mut out, role, depth, c, true);
+    let bytes1 = crate::engine::util::esc(&out);
+    if let Some(c2) = w.get("color2").and_then(|v| v.as_str()).and_then(parse_hex) {
+        // monotonicity witness: colour 1 is brighter (by luma) than colour 2 yet shown darker
+        let mut enc = new_encoder(depth);
+        let second = eval_once(&pal, &mut enc, &mut out, role, depth, c2, true);
+        let bytes2 = crate::engine::util::esc(&out);
+        let (l1, l2) = (luma(c), luma(c2));
+        let level = |r: &Result<Pass, Fail>| match r {
+            Ok(p) => Some(p.outcome),
+            Err(f) => f.level,
+        };
+        return Ok(match (level(&first), level(&second)) {
+            (Some(v1), Some(v2)) => {
+                let bad = (l1 > l2 + LUMA_TOL && v1 < v2) || (l2 > l1 + LUMA_TOL && v2 < v1);
+                (
+                    bad,
+                    format!(
+                        "{} luma {:.6} -> {} (level {}); {} luma {:.6} -> {} (level {}); expected: level non-decreasing in luma; observed: {}",
+                        hex_color(c), l1, bytes1, GRAY_LEVELS[v1 as usize & 3], hex_color(c2), l2, bytes2, GRAY_LEVELS[v2 as usize & 3],
+                        if bad { "order inverted" } else { "monotone" }
+                    ),
+                )
+            }
+            _ => match (first, second) {
+                (Err(f), _) | (_, Err(f)) => (true, format!("[{}] {}", f.kind, f.detail)),
+                _ => (false, "no grey level could be read".to_string()),
+            },
+        });
+    }
+    Ok(match first {
+        Ok(p) => (
+            false,
+            format!("{} as {} under {}: emitted {}, outcome {} satisfies the oracle (excess {:.7})", hex_color(c), role.name(), depth_name(depth), bytes1, p.outcome, p.excess),
+        ),
+        Err(f) => (true, format!("{} as {} under {}: emitted {}; [{}] {}", hex_color(c), role.name(), depth_name(depth), bytes1, f.kind, f.detail)),
+    })
 }
